@@ -145,7 +145,12 @@ def gen_case(rng, tier, ctx, i):
     if rng.random() < 0.06:
         from . import confgen
         ctx.count("count:configurator-models")
-        return {"recipe": confgen.gen_config(rng), "seed": rng.getrandbits(32)}     # a configurator is a model too (often one that has already answered a structural question)
+        rec = confgen.gen_config(rng)
+        if rng.random() < 0.5:
+            named = [n for n in refmodel.recipe_nodes(rec)[1:] if n.get("id") and n["k"] not in ("var", "str", "ref", "Not", "Stingy")]
+            if named:
+                rng.choice(named)["fix"] = rng.choice([0, 1])          # a rule whose own variable is already settled
+        return {"recipe": rec, "seed": rng.getrandbits(32)}     # a configurator is a model too (often one that has already answered a structural question)
     rec = common.model_case(rng, tier, o)
     if rec is None:
         return None
@@ -187,6 +192,15 @@ def _run_one(case, ctx):
     if adapters.is_leaf(m0):
         raise monitor.OutOfScope()
     graph, top, info = common.domain(m0, allow_prefixed=True)
+    if rng.random() < 0.3:
+        # one model object, ONE assumption dict that the caller extends in place between the calls: each answer is about the dict as it is now
+        m1 = recipes.fresh(case["recipe"])
+        held = {}
+        for step_ in range(3):
+            extra = {k_: v_ for k_, v_ in rand_assumption(rng, graph, top).items() if graph[k_]["leaf"]}
+            held.update(extra)
+            ctx.count("count:assumption-dict-extended-in-place")
+            ctx.call("assume", m1.assume, held)
     for _ in range(3 if ctx.tier == "quick" else 6):
         d = rand_assumption(rng, graph, top)
         m = recipes.fresh(case["recipe"])
